@@ -411,7 +411,17 @@ fn check_crate<T: Jetty<F = f64> + Copy>(tname: &str, ctx: &Ctx, shard: usize, n
         // one case in six: a structurally sparse real part (upper triangular, unit-scale diagonal,
         // small couplings -> kappa of a few) whose derivative parts are dense
         let triangular = ci % 6 == 4 && n >= 2;
-        let mut re: Vec<Vec<f64>> = if triangular {
+        // one case in twelve: small-integer matrices (spring chain, min(i,j)+1, Laplacian) whose pivot
+        // candidates tie exactly in magnitude, also with entries already eliminated above them
+        let integer = ci % 12 == 9 && n >= 2;
+        let (n, kappa) = if integer { (n.min(8), (4 * n.min(8) * n.min(8)) as f64) } else { (n, kappa) };
+        let mut re: Vec<Vec<f64>> = if integer {
+            match rng.below(3) {
+                0 => (0..n).map(|i| (0..n).map(|j| if i == j { if i == 0 { 1.0 } else { 2.0 } } else if i + 1 == j || j + 1 == i { -1.0 } else { 0.0 }).collect()).collect(),
+                1 => (0..n).map(|i| (0..n).map(|j| (i.min(j) + 1) as f64).collect()).collect(),
+                _ => (0..n).map(|i| (0..n).map(|j| if i == j { 2.0 } else if i + 1 == j || j + 1 == i { -1.0 } else { 0.0 }).collect()).collect(),
+            }
+        } else if triangular {
             (0..n).map(|i| (0..n).map(|j| if j < i { 0.0 } else if j == i { rng.sign() * rng.range(1.0, 2.0) } else { rng.range(-0.3, 0.3) }).collect()).collect()
         } else {
             conditioned(&mut rng, n, kappa)
@@ -442,9 +452,18 @@ fn check_crate<T: Jetty<F = f64> + Copy>(tname: &str, ctx: &Ctx, shard: usize, n
         // column of a wider array) -- the routines index logically, so the answer must not change
         let layout = ci % 3;
         let arr = with_layout(n, layout, |i, j| a.vals[i][j]);
-        let bvec = Array1::from_shape_fn(n, |i| rhs.vals[i][0]);
+        // the right-hand side in three layouts as well: standard, negative stride, every second entry
+        let bvec = match (ci / 3) % 3 {
+            0 => Array1::from_shape_fn(n, |i| rhs.vals[i][0]),
+            1 => {
+                let mut r = Array1::from_shape_fn(n, |i| rhs.vals[n - 1 - i][0]);
+                r.invert_axis(ndarray::Axis(0));
+                r
+            }
+            _ => Array1::from_shape_fn(2 * n, |i| rhs.vals[i / 2][0]).slice_move(ndarray::s![..;2]),
+        };
         let case = || json!({"type": tname, "n": n, "kappa": kappa, "scale": scale, "row_order": format!("{:?}", order), "A_parts": a.vals.iter().map(|r| r.iter().map(|x| floats(&parts(x, &shape))).collect::<Vec<_>>()).collect::<Vec<_>>(), "b_parts": rhs.vals.iter().map(|r| floats(&parts(&r[0], &shape))).collect::<Vec<_>>()});
-        let class = format!("LU|{}|n{}|{}{}{}|swaps-{}|{}", tname, if n > 6 { "7-12".to_string() } else { n.to_string() }, format!("{:?}", order), if scale != 1.0 { "-scaled" } else { "" }, if triangular { "-triangular-real-part" } else { "" }, if swaps % 2 == 0 { "even" } else { "odd" }, ["row-major", "column-major", "non-contiguous"][layout as usize]);
+        let class = format!("LU|{}|n{}|{}{}{}|swaps-{}|{}", tname, if n > 6 { "7-12".to_string() } else { n.to_string() }, format!("{:?}", order), if scale != 1.0 { "-scaled" } else { "" }, if integer { "-integer-ties" } else if triangular { "-triangular-real-part" } else { "" }, if swaps % 2 == 0 { "even" } else { "odd" }, ["row-major", "column-major", "non-contiguous"][layout as usize]);
         acc.observe(&class, n >= 2 && swaps >= 1);
         acc.count(&format!("pivot_sequence[{}:{:?}]", n, seq), 1);
         let lu = match guarded(|| LU::new(arr.clone())) {
@@ -521,6 +540,8 @@ fn check_crate<T: Jetty<F = f64> + Copy>(tname: &str, ctx: &Ctx, shard: usize, n
         {
             let variant = ci % 4;
             let sc = match variant { 0 => (2.0f64).powi(-80), 1 => (2.0f64).powi(60), _ => 1.0 };
+            // one case in sixteen: a long vector (pairwise / blocked summations change behaviour there)
+            let n = if ci % 16 == 11 { *rng.choose(&[33usize, 129, 200, 257]) } else { n };
             let mut hv: Mats<T> = make_vector(&mut rng, n, &b, &shape);
             let zero_at = if variant >= 2 && n >= 2 { Some(rng.below(n)) } else { None };
             for i in 0..n {
@@ -535,7 +556,7 @@ fn check_crate<T: Jetty<F = f64> + Copy>(tname: &str, ctx: &Ctx, shard: usize, n
                 hv.jets[i][0] = Jet::from_slots(&b, &sl);
             }
             let hvec = Array1::from_shape_fn(n, |i| hv.vals[i][0]);
-            let kind = ["scaled-2^-80", "scaled-2^60", "zero-real-component", "zero-real-component"][variant as usize];
+            let kind = if n > 12 { "long-vector" } else { ["scaled-2^-80", "scaled-2^60", "zero-real-component", "zero-real-component"][variant as usize] };
             let hcase = || json!({"type": tname, "n": n, "kind": kind, "x_parts": hv.vals.iter().map(|r| floats(&parts(&r[0], &shape))).collect::<Vec<_>>()});
             if let Ok(nr) = guarded(|| norm(&hvec)) {
                 acc.observe(&format!("norm|{}|{}", tname, kind), true);
